@@ -226,6 +226,10 @@ def judge(kind, data: bytes, label, opts=None, expect=None, key=None):
         bad = f"loader ended with {out[1]}"
     elif out[0] == "object" and not out[2].get("validated"):
         bad = "loader returned an object that did not pass through full validation"
+    elif out[0] == "object" and out[2].get("signatures_verify") is False:
+        bad = "loader returned an object carrying a signature that does not verify under the key the object lists for it (signature validation was on)"
+    elif expect == "refused" and out[0] == "object":
+        bad = "an invalid document was loaded"
     elif expect == "object" and out[0] != "object":
         bad = f"valid document was not loaded: {out[1]} {out[2]}"
     elif expect == "refused-unread" and not (out[0] == "exception" and out[2].get("reads") == 0):
@@ -328,6 +332,30 @@ for flag_name, argv, env in (("-O", ["-O"], {}), ("-OO", ["-OO"], {}), ("PYTHONO
             bad_ = f"a valid KSR was not loaded: {out_}"
         if bad_:
             rep.violation("impl-vs-spec", f"interpreter started with {flag_name}, {label} KSR: {bad_}", {"kind": "optimized-interpreter", "flag": flag_name, "document": label, "outcome": out_})
+# several files in one process (previous SKR then KSR; a receiver that stays up): what one file said about an identifier says nothing about the next file.
+# File B lists, under the identifiers of file A, other keys (key tags in order) but is still signed by A's keys.
+_zk = [ksrxml.mk_key(ksrxml.POOL.rsa(1024, 65537, 40 + j), alg=8, ident=f"ZSK-seq-{j}") for j in range(2)]
+_zo = [dict(ksrxml.mk_key(ksrxml.POOL.rsa(1024, 65537, 50 + j), alg=8, ident=f"ZSK-seq-{j}")) for j in range(2)]
+ksrxml.POOL.save()
+_seq_pol = dict(rsa_approved_key_sizes=[1024], num_bundles=2, check_cycle_length=False, num_keys_per_bundle=[2, 1], num_different_keys_in_all_bundles=2)
+_reqA = skrgen.honest_request("seq-a", NOW + D(days=3), 2, [[_zk[0], _zk[1]], [_zk[1]]], ksrxml.default_zsk_policy(), sign=True)
+_reqB = skrgen.honest_request("seq-b", NOW + D(days=3), 2, [[_zo[0], _zo[1]], [_zo[1]]], ksrxml.default_zsk_policy(), sign=False)
+for b_ in _reqB["bundles"]:
+    b_["sigs"] = [ksrxml.mk_sig(dict(k_, priv=_zk[int(k_["id"][-1])]["priv"]), b_["keys"], b_["inc"], b_["exp"]) for k_ in b_["keys"]]
+_reqB_honest = skrgen.honest_request("seq-b2", NOW + D(days=3), 2, [[_zo[0], _zo[1]], [_zo[1]]], ksrxml.default_zsk_policy(), sign=True)
+for rnd_ in range(2):
+    judge("ksr", ksrxml.render_ksr(_reqA).encode(), "sequence:honest-file-first", _seq_pol, expect="object")
+    judge("ksr", ksrxml.render_ksr(_reqB).encode(), "sequence:other-keys-under-known-identifiers-signed-by-the-first-file's-keys", _seq_pol, expect="refused")
+    judge("ksr", ksrxml.render_ksr(_reqB_honest).encode(), "sequence:other-keys-under-known-identifiers-honestly-signed", _seq_pol, expect="object")
+    judge("ksr", ksrxml.render_ksr(_reqA).encode(), "sequence:first-file-again", _seq_pol, expect="object")
+_skA = skrgen.simulate_skr(skrgen.honest_request("seq-sa", NOW + D(days=3), 2, [[_zk[0]], [_zk[0]]], ksrxml.default_zsk_policy(), sign=False), {i: schema[i] for i in (1, 2)}, KS, ksrxml.default_zsk_policy())
+_KS2 = {n: (dict(ksrxml.mk_key(ksrxml.POOL.rsa(1024, 65537, 60), alg=8, flags=257, ident=k_["id"])) if n == "ksk_current" else k_) for n, k_ in KS.items()}
+ksrxml.POOL.save()
+_skB = skrgen.simulate_skr(skrgen.honest_request("seq-sb", NOW + D(days=3), 2, [[_zk[0]], [_zk[0]]], ksrxml.default_zsk_policy(), sign=False), {i: schema[i] for i in (1, 2)}, _KS2, ksrxml.default_zsk_policy())
+_skB_forged = {**_skB, "bundles": [dict(b_, sigs=a_["sigs"], keys=[k_ for k_ in b_["keys"]]) for a_, b_ in zip(_skA["bundles"], _skB["bundles"])]}
+judge("skr", ksrxml.render_skr(_skA).encode(), "sequence:honest-skr-first", {"num_bundles": 2}, expect="object")
+judge("skr", ksrxml.render_skr(_skB_forged).encode(), "sequence:skr-other-ksk-under-known-identifier-with-the-first-file's-signatures", {"num_bundles": 2}, expect="refused")
+judge("skr", ksrxml.render_skr(_skB).encode(), "sequence:skr-other-ksk-under-known-identifier-honestly-signed", {"num_bundles": 2}, expect="object")
 # size cap: exactly 1 MiB is read, one byte more is refused before reading
 pad = lambda doc, n: (doc + " " * (n - len(doc.encode()))).encode()
 judge("ksr", pad(KSR9, 1024 * 1024), "size:exactly-1MiB", POL9, expect="object")
